@@ -106,7 +106,7 @@ def parseOp (t : List String) : Option Op :=
   let n (s : String) := s.toNat?
   match t with
   | ["new", d] => do pure (.new (← n d))
-  | ["from", d, x] | ["from_string", d, x] | ["from_box", d, x] | ["from_cow", d, x] | ["from_ref_string", d, x] =>
+  | ["from", d, x] | ["from_string", d, x] | ["from_box", d, x] | ["from_cow", d, x] | ["from_ref_string", d, x] | ["from_unchecked", d, x] =>
     do pure (.fromStr (← n d) (← unhex x) true)
   | ["try_from", d, x] => do pure (.fromStr (← n d) (← unhex x) false)
   | ["from_static", d, s] => do pure (.fromStatic (← n d) (← n s))
@@ -191,7 +191,18 @@ def stepLine (s : DState) (line : String) : DState × Option String :=
   | _ =>
     if line.startsWith "#" then (s, none) else
     let stp := if s.gen then stepG else step
-    let res : World × Out := match parseOp t with
+    let res : World × Out := match t with
+      | ["add", hd, x] =>
+        -- `s = s + t`: `push_str` on a value taken by the operator; if the call unwinds the operand is destroyed
+        match hd.toNat?, unhex x with
+        | some hh, some bs =>
+          let (w1, o1) := stp s.rf s.w (.pushStr hh bs true)
+          (match o1 with
+           | .panicAlloc | .panicIdx | .panicCb => ((stp s.rf w1 (.drop hh)).1, o1)
+           | _ => (w1, o1))
+        | _, _ => (s.w, .bad)
+      | _ =>
+      match parseOp t with
       | some op => stp s.rf s.w op
       | none => match parseOp2 t with
         | some op => stp s.rf s.w op
